@@ -56,6 +56,15 @@ func c16Exercise(rs *resolved.Schema) {
 		}
 		_ = v.Entities(ents)
 		_ = v.Entity(ents[a])
+		// entities whose parents are of types the hierarchy does not reach (undeclared,
+		// an action, a type outside any cycle), and an entity of an undeclared type
+		for _, parent := range []types.EntityUID{types.NewEntityUID("Undeclared", "u"), types.NewEntityUID("Action", "view"), types.NewEntityUID("C", "c")} {
+			for _, child := range []types.EntityUID{a, b, types.NewEntityUID("Nope", "n")} {
+				e := types.Entity{UID: child, Parents: types.NewEntityUIDSet(parent)}
+				_ = v.Entity(e)
+				_ = v.Entities(types.EntityMap{child: e})
+			}
+		}
 		_ = v.Request(types.Request{Principal: a, Action: types.NewEntityUID("Action", "view"), Resource: b, Context: types.Record{}})
 		_ = v.Request(types.Request{Principal: types.NewEntityUID("Nope", "n"), Action: types.NewEntityUID("Action", "nope"), Resource: b, Context: types.NewRecord(types.RecordMap{"k": types.Long(1)})})
 	}
